@@ -39,7 +39,7 @@ def handle : Handler := fun op args =>
       if d = 0 then "undef" else outR (round x d)
   | "c17.roundV" => withArgs (do let x ← pRats; let d ← pNat; pure (x, d)) args fun (xs, d) =>
       if d = 0 then "undef" else
-      if d > 7 ∧ xs.any (· ≠ 0) then "err" else
+      if d > 7 ∧ !xs.isEmpty then "err" else
         "ok " ++ toString xs.length ++ " " ++ showRats (xs.map fun x => match round x d with | .ok v => v | .error _ => 0)
   | "c17.dawson" => withArgs pRat args fun x =>
       "ok " ++ (if rabs x < 2 / 10 then "small " else "large ") ++ showRat (if rabs x < 2 / 10 then dawson expApprox x else rnd (dawson expApprox x))
